@@ -10,6 +10,9 @@ def _method(name, define, loops, functions, weak=False, extra=None):
          "harness": "harness/method.c", "defs": [define + "=1"] + (["WEAK=1"] if weak else []),
          "verif_src": ["models/strings.c"], "repo_src": ["lib/util-base64.c"],
          "loops": loops,
+         # postconditions are stated over ghost state of the primitive stubs
+         # (last digest, key material, parse/print logs): no native re-evaluation
+         "no_native": True,
          "unwind": 10, "bounds": {"SPAN": 64, "STR": 32, "SPANEXACT": 24}, "mem_gb": 6, "timeout": 600}
     if cap and not weak:
         j["defs"].append("SET_CAP=%d" % cap)
@@ -19,13 +22,20 @@ def _method(name, define, loops, functions, weak=False, extra=None):
     j.update(extra)
     return j
 
+def _last_eq(ghost, var, n):
+    """the ghost copy of the last digest equals the method's result buffer
+    (kept across the stretching loop's havoc by its invariant)"""
+    return " && ".join("%s[%d] == %s[%d]" % (ghost, i, var, i) for i in range(n))
+
+
 MD5_LOOPS = [
     {"function": "_crypt_crypt_md5crypt_rn", "anchor": "for (cnt = phr_size; cnt > 16; cnt -= 16)",
      "invariant": "cnt <= phr_size && xv_md5_state == 1 && xv_md5_ctx == scratch && xv_phrase_absorbed >= 3", "decreases": "cnt"},
     {"function": "_crypt_crypt_md5crypt_rn", "anchor": "for (cnt = phr_size; cnt > 0; cnt >>= 1)",
      "invariant": "cnt <= phr_size && xv_md5_state == 1 && xv_md5_ctx == scratch && xv_phrase_absorbed >= 3", "decreases": "cnt"},
     {"function": "_crypt_crypt_md5crypt_rn", "anchor": "for (cnt = 0; cnt < 1000; ++cnt)",
-     "invariant": "cnt <= 1000 && xv_md5_state == 0 && xv_md5_ctx == scratch && xv_phrase_absorbed >= 3", "decreases": "1000 - cnt"},
+     "invariant": "cnt <= 1000 && xv_md5_state == 0 && xv_md5_ctx == scratch && xv_phrase_absorbed >= 3 && "
+                  + _last_eq("xv_md5_last", "result", 16), "decreases": "1000 - cnt"},
 ]
 
 JOBS = [
@@ -35,6 +45,7 @@ JOBS = [
 ]
 
 def _sha_loops(fn, helper, blk):
+    dig = blk
     st = "xv_sha_state == %d && xv_sha_ctx == scratch && xv_phrase_absorbed >= 3"
     # the stretching loop runs exactly the parsed number of rounds (C01, C11):
     # 5000 unless a rounds= field was parsed, then the parsed value
@@ -51,7 +62,8 @@ def _sha_loops(fn, helper, blk):
         {"function": fn, "anchor": "for (cnt = 0; cnt < (size_t) 16 + (size_t) result[0]; ++cnt)",
          "invariant": "cnt <= 271 && " + st % 1, "decreases": "271 - cnt"},
         {"function": fn, "anchor": "for (cnt = 0; cnt < rounds; ++cnt)",
-         "invariant": "cnt <= rounds && " + rounds_ok + " && " + st % 0, "decreases": "rounds - cnt"},
+         "invariant": "cnt <= rounds && " + rounds_ok + " && " + st % 0 + " && " + _last_eq("xv_sha_last", "result", dig),
+         "decreases": "rounds - cnt"},
     ]
 
 SHA_EXTRA = {"late_src": ["models/snprintf.c"], "timeout": 2400, "mem_gb": 10, "set_cap": 128, "tier": "thorough"}
